@@ -213,6 +213,7 @@ func genKOp0(r *rand.Rand) *KOp {
 			if r.Intn(10) == 0 {
 				o.Val = nil
 			}
+			o.NewCasCur = r.Intn(6) == 0 // the version the document is at already: the expected CAS must be checked all the same
 			return o
 		}},
 		{2, func() *KOp {
@@ -221,6 +222,7 @@ func genKOp0(r *rand.Rand) *KOp {
 				x := []XKV{{Name: "_sync", Val: sp(pick(r, xattrVals))}}
 				o.XObj = &x
 			}
+			o.NewCasCur = r.Intn(6) == 0
 			return o
 		}},
 		{5, func() *KOp { return &KOp{Kind: "SetXattrs", Xs: genXs(r, true)} }},
@@ -231,6 +233,8 @@ func genKOp0(r *rand.Rand) *KOp {
 			o := &KOp{Kind: "WriteWithXattrs", Exp: genExp(r), CasMode: genCasMode(r), Xs: genXs(r, true), Dels: genDels(r), Preserve: r.Intn(5) == 0, Macros: genMacros(r)}
 			if r.Intn(3) > 0 {
 				o.Val = sp(pick(r, jsonBodies))
+			} else if r.Intn(3) == 0 {
+				o.Val = sp("") // a body that is there and empty - not the same as no body given
 			}
 			return o
 		}},
@@ -241,6 +245,8 @@ func genKOp0(r *rand.Rand) *KOp {
 			o := &KOp{Kind: "WriteResurrectionWithXattrs", Exp: genExp(r), Xs: genXs(r, true), Preserve: r.Intn(5) == 0, Macros: genMacros(r), Val: sp(pick(r, jsonBodies))}
 			if r.Intn(12) == 0 {
 				o.Val = nil
+			} else if r.Intn(10) == 0 {
+				o.Val = sp("")
 			}
 			return o
 		}},
@@ -257,6 +263,8 @@ func genKOp0(r *rand.Rand) *KOp {
 			}
 			if r.Intn(4) > 0 {
 				cb.Val = sp(pick(r, jsonBodies))
+			} else if r.Intn(3) == 0 {
+				cb.Val = sp("")
 			}
 			if r.Intn(3) == 0 {
 				cb.NewExp = u32p(genExp(r))
@@ -317,7 +325,7 @@ func genKv(r *rand.Rand, tier string) kvInput {
 	// which collections exist (model: explicit create steps)
 	exists := map[string]bool{"_default._default": true}
 	for _, cn := range kvColls[1:] {
-		if r.Intn(4) > 0 {
+		if (cn != "s2.c1" && r.Intn(4) > 0) || (cn == "s2.c1" && r.Intn(3) == 0) {
 			in.Ops = append(in.Ops, Step{Kind: "create", Coll: cn, Clock: next()})
 			exists[cn] = true
 		}
@@ -434,6 +442,7 @@ func genKv(r *rand.Rand, tier string) kvInput {
 				st.Plus = 1
 			}
 			st.KeysOnly = r.Intn(4) == 0
+			st.ViaBucket = r.Intn(3) == 0
 			in.Ops = append(in.Ops, st)
 		default:
 			cn := pick(r, live)
